@@ -1,5 +1,7 @@
 import PicoVerif.Model.Require
+import PicoVerif.Model.ReqWalk
 import PicoVerif.Lemmas.C14
+import PicoVerif.Lemmas.C14b
 /-! C14 — build embeds each require()d package once and leaves all code intact.
 The extraction of `require(...)` calls from a file's tree, the file lookup and the re-lexing of a stripped package are
 parameters of the model, tied to the code by the correspondence (real builds of random package graphs, compared token
@@ -128,5 +130,91 @@ example : (match evalCalls { locate := fun p _ => if p == [97] then some 1 else 
                                                    else if f == 1 then [.ok ([98], false)] else [.ok ([97], false)] }
                            20 [.ok ([97], false), .ok ([98], false), .ok ([97], true)] 0 [] with
     | .ok pk => pk.map (·.name) == [[97], [98]] | .error _ => false) = true := by decide +kernel
+
+/-! ### Second part — the parameters made concrete
+Discovery of `require()` calls in a parsed file (`RequireWalker`), the stripping decision and token ranges, and the
+composition with lexer, parser, lookup and assembly into the whole code transformation of `p8tool build --lua main.lua`
+(`ReqWalk.buildLua`, compared byte for byte with real builds by the correspondence). -/
+section concrete
+open Pico.Lex Pico.Peg Pico.Gram Pico.ReqWalk
+
+/-- **C14.walk_reports_all**: the walker reports the `require(...)` calls of a tree in source order — every outermost
+one, validated — up to and including the first one with unusable arguments (where it raises). -/
+theorem walk_reports_all (toks : Array Tok) (t : Tree) :
+    walk toks t = throughFirstError ((reqNodes toks t).map (callOf toks)) := by
+  exact walk_eq toks t
+
+/-- **C14.call_accepted_iff**: a `require` call is accepted exactly when it has a parenthesised argument list of one
+string literal, or of a string literal and the option table `{use_game_loop=<true|false>}`; then the reported path is
+the literal's value and the reported option is the table's (default false). -/
+theorem call_accepted_iff (toks : Array Tok) (args : List Tree) (p : Bytes) (b : Bool) :
+    callOf toks args = .ok (p, b) ↔
+      ∃ s e acs s2 e2 es, args = [.node kFunctionArgs s e acs] ∧ acs.filter isNode = [.node kExpList s2 e2 es] ∧
+        ((∃ a, es.filter isNode = [a] ∧ stringOf toks a = some p ∧ b = false) ∨
+         (∃ a o, es.filter isNode = [a, o] ∧ stringOf toks a = some p ∧ optionOf toks o = some b)) := by
+  exact callOf_ok_iff toks args p b
+
+/-- **C14.bad_call_is_error**: every other argument shape is an error entry (which `arg_error_fails` turns into a
+failed build). -/
+theorem bad_call_is_error (toks : Array Tok) (args : List Tree) :
+    (∃ p b, callOf toks args = .ok (p, b)) ∨ callOf toks args = .error .build := by
+  exact callOf_ok_or_build toks args
+
+/-- **C14.strip_ranges**: the token ranges removed from a package are exactly the spans of its top-level
+`function NAME(...)` statements for which `stripsStat` holds, in source order. -/
+theorem strip_ranges (toks : Array Tok) (s0 e0 : Nat) (cs : List Tree) (s e : Nat) :
+    (s, e) ∈ stripRanges toks [.node kChunk s0 e0 cs] ↔
+      ∃ kwLeaf fn rest np m, Tree.node kStatFunction s e (.leaf kwLeaf :: fn :: rest) ∈ cs ∧
+        funcNameParts toks fn = some (np, m) ∧ stripsStat np m = true := by
+  exact mem_stripRanges_chunk toks s0 e0 cs s e
+
+/-- **C14.kept_package_untouched**: with `{use_game_loop=true}` the package's tokens are those of its source. -/
+theorem kept_package_untouched (src : List Bytes) : packageCode true src = Lex.lex src := by
+  exact packageCode_true src
+
+/-- **C14.nothing_to_strip**: a package without game-loop functions keeps its tokens. -/
+theorem nothing_to_strip (src : List Bytes) (toks : List Tok) (ts : List Tree)
+    (hl : Lex.lex src = .ok toks) (hp : parse toks = .ok ts) (hn : stripRanges toks.toArray ts = []) :
+    packageCode false src = .ok toks := by
+  exact packageCode_nothing src toks ts hl hp hn
+
+/-- **C14.build_is_composition**: a successful build is: lex the main file, discover its calls, evaluate them against
+the world made of the concrete files (so `once`, `all_registered`, `registered_from_lookup` apply to `pkgs`), take
+each registered package's (stripped) code, assemble, re-lex; the result is the echo of those tokens. -/
+theorem build_is_composition (fs : Files) (main : Nat) (lp : Path.P) (code : Bytes) (h : buildLua fs main lp = .ok code) :
+    ∃ mpath src mainToks calls pkgs bodies toks,
+      fs[main]? = some (mpath, src) ∧ Lex.lex src = .ok mainToks ∧ requireCalls mainToks = .ok calls ∧
+      evalCalls (worldOf fs lp) (4 * fs.length + 4 * calls.length + 16) calls main [] = .ok pkgs ∧
+      bodies.map (·.1) = pkgs.map (·.name) ∧
+      (∀ q ∈ pkgs, ∃ path psrc ptoks, fs[q.file]? = some (path, psrc) ∧ packageCode q.keepLoop psrc = .ok ptoks ∧
+          (q.name, Wr.echo ptoks) ∈ bodies) ∧
+      Lex.lex [assembleCode bodies (Wr.echo mainToks)] = .ok toks ∧ code = Wr.echo toks := by
+  exact buildLua_ok fs main lp code h
+
+/-- **C14.build_registers_once**: in a successful build no package name is registered twice. -/
+theorem build_registers_once (fs : Files) (main : Nat) (lp : Path.P) (calls : List Call) (pkgs : List Pkg) (fuel : Nat)
+    (h : evalCalls (worldOf fs lp) fuel calls main [] = .ok pkgs) : (pkgs.map (·.name)).Nodup := by
+  exact evalCalls_nodup _ fuel calls main [] pkgs h List.nodup_nil
+
+/-- **C14.located_under_load_path**: every registered package's file is one of the load path's candidates for its
+name, relative to the directory of a file that required it (C12's candidate list). -/
+theorem located_under_load_path (fs : Files) (main : Nat) (lp : Path.P) (calls : List Call) (pkgs : List Pkg) (fuel : Nat)
+    (h : evalCalls (worldOf fs lp) fuel calls main [] = .ok pkgs) :
+    ∀ q ∈ pkgs, ∃ (from_ : Nat) (fromPath : Path.P) (fsrc : List Bytes) (c : Path.P), fs[from_]? = some (fromPath, fsrc) ∧
+      c ∈ requireCandidates (bytesToPath q.name) (Path.dirname fromPath) lp ∧ fileIdx fs c = some q.file := by
+  intro q hq
+  rcases evalCalls_from_lookup _ fuel calls main [] pkgs h q hq with hq' | ⟨from_, hl⟩
+  · cases hq'
+  · obtain ⟨fromPath, fsrc, c, hf, hc, hi⟩ := worldOf_locate fs lp q.name from_ q.file hl
+    exact ⟨from_, fromPath, fsrc, c, hf, hc, hi⟩
+
+example : (match Lex.lex ["print(require(\"a\"))\nrequire(\"b\", {use_game_loop=true})\n".toUTF8.toList] with
+    | .ok ts => (match requireCalls ts with
+        | .ok cs => cs.length == 2 && (cs.all fun c => !isErr c)
+        | .error _ => false)
+    | .error _ => false) = true := by decide +kernel
+
+
+end concrete
 
 end Pico.C14
